@@ -67,7 +67,7 @@ int main(int argc, char** argv) {
   if (argc < 2) return 2;
   const char* name = argv[1];
   const char *salt = "", *readsFile = NULL, *depOuts[8] = {0}, *depStyle = "makefile", *failFile = NULL, *logf = getenv("BSCMD_LOG");
-  const char* ins[MAXA]; int nin = 0; const char* outs[MAXA]; int nout = 0; const char* envs[MAXA]; int nenv = 0; long sleepMs = 0; int depCorrupt = 0, ndep = 0, depCorruptIndex = -1, depCorruptMid = 0; int logEnd = 0, restat = 0;
+  const char* ins[MAXA]; int nin = 0; const char* outs[MAXA]; int nout = 0; const char* envs[MAXA]; int nenv = 0; long sleepMs = 0; int depCorrupt = 0, ndep = 0, depCorruptIndex = -1, depCorruptMid = 0; int logEnd = 0, restat = 0, linkOuts = 0;
   for (int i = 2; i < argc; ++i) {
     const char* a = argv[i]; const char* v = i + 1 < argc ? argv[i + 1] : "";
     if (!strcmp(a, "--salt")) { salt = v; ++i; }
@@ -85,6 +85,7 @@ int main(int argc, char** argv) {
     else if (!strcmp(a, "--log")) { logf = v; ++i; }
     else if (!strcmp(a, "--log-end")) { logEnd = 1; }
     else if (!strcmp(a, "--restat")) { restat = 1; }
+    else if (!strcmp(a, "--link-outs")) { linkOuts = 1; }   /* each output is a symbolic link to <output>.real, which holds the content */
     else if (!strcmp(a, "--in-rest")) { for (++i; i < argc && nin < MAXA; ++i) ins[nin++] = argv[i]; }   /* ninja: $in expands to several words */
   }
   if (logf) {
@@ -113,10 +114,17 @@ int main(int argc, char** argv) {
   if (!strcmp(fmode, "missing-read")) return finish(3);
   for (int i = 0; i < nout; ++i) {
     if (restat) { char want[1200]; snprintf(want, sizeof want, "%016llx %s %d\n", (unsigned long long)H, name, i); if (same_content(outs[i], want)) continue; }
-    FILE* f = fopen(outs[i], "w");
-    if (!f) { fprintf(stderr, "bscmd %s: cannot write %s: %s\n", name, outs[i], strerror(errno)); return finish(4); }
+    char real[1300]; const char* target = outs[i];
+    if (linkOuts) { snprintf(real, sizeof real, "%s.real", outs[i]); target = real; }
+    FILE* f = fopen(target, "w");
+    if (!f) { fprintf(stderr, "bscmd %s: cannot write %s: %s\n", name, target, strerror(errno)); return finish(4); }
     fprintf(f, "%016llx %s %d\n", (unsigned long long)H, name, i);
     if (fclose(f) != 0) return finish(4);
+    if (linkOuts) {
+      const char* base = strrchr(real, '/'); base = base ? base + 1 : real;
+      unlink(outs[i]);
+      if (symlink(base, outs[i]) != 0) { fprintf(stderr, "bscmd %s: cannot link %s: %s\n", name, outs[i], strerror(errno)); return finish(4); }
+    }
   }
   for (int d = 0; d < ndep; ++d) {
     FILE* f = fopen(depOuts[d], "w");
